@@ -66,7 +66,11 @@ void operator delete[](void *p, size_t) noexcept { free(p); }
 #include <exception>
 #include <signal.h>
 static void verif_abort_handler(int) { const char m[] = "ASSUME-STOP\n"; fflush(stdout); (void)!write(1, m, sizeof(m) - 1); _Exit(0); }   // abort() from a libstdc++ assertion = cut path in the model
-static void verif_terminate() { printf("ASSUME-STOP\n"); fflush(stdout); _Exit(0); }   // uncaught C++ exception = cut path (assume(false)) in the model
+#ifdef VERIF_REPLAY
+static void verif_terminate() { printf("ABNORMAL-EXIT uncaught C++ exception (std::terminate)\n"); fflush(stdout); _Exit(3); }
+#else
+static void verif_terminate() { printf("ASSUME-STOP\n"); fflush(stdout); _Exit(0); }
+#endif   // uncaught C++ exception = cut path (assume(false)) in the model
 int main(int argc, char **argv) {
   std::set_terminate(verif_terminate);
 #ifndef VERIF_REPLAY
